@@ -230,11 +230,11 @@ type lexOut struct {
 }
 
 type lexExec struct {
-	t                     *Tree
-	next, backup, errorf  *ssa.Function
-	steps, maxSteps       int
-	aborted               string
-	unknownPreds          map[string]bool
+	t                    *Tree
+	next, backup, errorf *ssa.Function
+	steps, maxSteps      int
+	aborted              string
+	unknownPreds         map[string]bool
 }
 
 type lexFrame struct {
@@ -678,7 +678,6 @@ func lexAbstract(t *Tree, states []*ssa.Function, entry *ssa.Function) ([]lexAbs
 	})
 	return list, entryCls, x
 }
-
 
 // envDigest: the abstract values that distinguish paths (booleans, r0 aliases, constants), rendered stably.
 func envDigest(env map[ssa.Value]aval) string {
